@@ -1,4 +1,4 @@
-CONSTANTS SeedNames = {"yamlflow", "yamlmerge", "dsv"}  MaxSteps = 2  SwapSpan = 2
+CONSTANTS SeedNames = {"yamlflow", "dsv"}  MaxSteps = 2  SwapSpan = 1
 SPECIFICATION Spec
 INVARIANT Emit
 CHECK_DEADLOCK FALSE
